@@ -58,6 +58,7 @@ func runC01(c *Ctx) {
 			"a matching node must contribute all three kinds of subscription, otherwise inline subscribers are matched under different rules")
 	}
 	c.floor("C01.a gather sites", sites, 3)
+	depthTracksLevel(c, "C01.e depth-is-level", f, "(*mqtt.TopicsIndex).scanSubscribers", 1)
 	// no collector call outside a gather site
 	for _, n := range []string{fnGatherShared, fnGatherInline} {
 		for _, x := range c.callsNamed(f, n) {
@@ -163,6 +164,38 @@ func runC01(c *Ctx) {
 	c.floor("C01.c '#'-child lookups on the terminal node", nTerm, 1)
 }
 
+// depthTracksLevel: every recursive call of a trie walk descends to a child of the current node and passes
+// depth+1, so the depth parameter always equals the node's level (the root-level tests `d == 0` rely on it).
+func depthTracksLevel(c *Ctx, rule string, f *ssa.Function, self string, floor int) {
+	n := 0
+	for _, ci := range c.callsNamed(f, self) {
+		n++
+		a := ci.Common().Args
+		node := describe(a[3])
+		child := strings.Contains(node, "(*mqtt.particles).get(φn.particles,") || strings.Contains(node, "(*mqtt.particles).get(n.particles,") ||
+			strings.Contains(node, "range((*mqtt.particles).getAll(φn.particles))") || strings.Contains(node, "range((*mqtt.particles).getAll(n.particles))")
+		c.ob(rule, fmt.Sprintf("%s: recursive descent under %s passes depth d+1 with a child of the current node", fname(f), guardKey(ci)), c.pos(ci.Pos()),
+			describe(a[2]) == "d + 1" && child, "depth="+describe(a[2])+" node="+node+": the depth parameter no longer equals the node's level, so root-only tests (d == 0) apply elsewhere")
+	}
+	c.floor(rule+" recursive calls", n, floor)
+}
+
+// trimKeepsRetained: a node that still carries a retained message is never unlinked by trim (wildcard scans walk
+// the trie, so an unlinked node's message is invisible to them while exact filters still find it in the store).
+func trimKeepsRetained(c *Ctx, rule string) {
+	g := c.fn("mqtt", "(*TopicsIndex).trim")
+	if g == nil {
+		return
+	}
+	if d := c.call1(g, "(*mqtt.particles).delete"); d != nil {
+		m := textHas(`.retainPath == ""`)
+		c.ob(rule, "(*mqtt.TopicsIndex).trim: every node unlinked on the upward walk was itself tested to hold no retained message", c.pos(d.Pos()),
+			dominatedByFact(d, m, true) && reguarded(d, m, true), "an ancestor with a retained message would vanish from the trie while its packet stays in the store: exact filters find it, wildcard filters do not")
+	} else {
+		c.ob(rule, "(*mqtt.TopicsIndex).trim unlinks through particles.delete", c.pos(g.Pos()), false, "site not found")
+	}
+}
+
 // ---- C02 -----------------------------------------------------------------------------------
 
 func init() {
@@ -201,6 +234,8 @@ func runC02(c *Ctx) {
 	if !found {
 		c.ob("C02.a dollar-exclusion", "(*mqtt.TopicsIndex).scanMessages: root-level skip of '$' children for wildcard filters", c.pos(f.Pos()), false, "no test of the child key found")
 	}
+	depthTracksLevel(c, "C02.e depth-is-level", f, "(*mqtt.TopicsIndex).scanMessages", 2)
+	trimKeepsRetained(c, "C02.f trim-keeps-retained")
 	// (b)
 	n := 0
 	for _, ci := range c.callsNamed(f, "builtin.append") {
@@ -298,6 +333,7 @@ func init() {
 }
 
 func runC05(c *Ctx) {
+	trimKeepsRetained(c, "C05.e trim-keeps-retained")
 	if f := c.fn("mqtt", "(*Server).publishRetainedToClient"); f != nil {
 		m := c.call1(f, "(*mqtt.TopicsIndex).Messages")
 		c.underFact("C05.a replay-guards", "(*mqtt.Server).publishRetainedToClient: shared subscriptions never get retained messages", m, textEq("mqtt.IsSharedFilter(sub.Filter)"), false, "")
@@ -686,6 +722,25 @@ func runC31(c *Ctx) {
 		// the sum of the four sizes is compared with 0
 		c.ob("C31.b trim-keeps-live-nodes", "(*mqtt.TopicsIndex).trim removes a node only when all sizes are zero", c.pos(f.Pos()), strings.Contains(all, "== 0"), "")
 		d := c.call1(f, "(*mqtt.particles).delete")
+		// path form: the removal is guarded by every term, and the guard is evaluated again for each ancestor
+		// the walk climbs to (a check hoisted out of the loop protects only the starting node)
+		if d != nil {
+			for _, term := range []struct {
+				what  string
+				match func(string) bool
+				truth bool
+			}{
+				{"has a parent", textHas(".parent == nil"), false},
+				{"holds no retained message", textHas(`.retainPath == ""`), true},
+				{"has no children", textHas("(*mqtt.particles).len(", "== 0"), true},
+				{"has no client subscriptions", textHas("(*mqtt.Subscriptions).Len(", "== 0"), true},
+				{"has no shared subscriptions", textHas("(*mqtt.SharedSubscriptions).Len(", "== 0"), true},
+				{"has no inline subscriptions", textHas("(*mqtt.InlineSubscriptions).Len(", "== 0"), true},
+			} {
+				c.ob("C31.b trim-keeps-live-nodes", "(*mqtt.TopicsIndex).trim: each node removed on the upward walk was itself tested: "+term.what, c.pos(d.Pos()),
+					dominatedByFact(d, term.match, term.truth) && reguarded(d, term.match, term.truth), "an ancestor that still carries a retained message or a subscription would be unlinked with its last child")
+			}
+		}
 		c.ob("C31.b trim-keeps-live-nodes", "(*mqtt.TopicsIndex).trim deletes the node from its parent by its own key", c.pos(f.Pos()), d != nil && strings.HasSuffix(describe(d.Common().Args[1]), ".key") && strings.Contains(describe(d.Common().Args[0]), ".parent.particles"), "")
 	}
 	// (c) existed reports
